@@ -121,6 +121,13 @@ func main() {
 	}
 	rep := NewReport(*prop, *tier, known)
 	rep.Explanation = spec.explanation
+	// the claim text of MANIFEST.json (tools/genmanifest.py writes both from one table) is the current wording
+	if b, err := os.ReadFile(filepath.Join(*verif, "claims.json")); err == nil {
+		var claims map[string]string
+		if json.Unmarshal(b, &claims) == nil && claims[*prop] != "" {
+			rep.Explanation = claims[*prop]
+		}
+	}
 	p, err := Load(*repo, 20)
 	if err != nil {
 		// A tree that does not load cannot be judged: fail the check, name the reason.
